@@ -6,6 +6,8 @@ import (
 	"flag"
 	"fmt"
 	"os"
+	"runtime"
+	"runtime/pprof"
 	"time"
 
 	"verif/internal/ev"
@@ -39,5 +41,17 @@ func main() {
 		run.SetReplay(*replay)
 	}
 	fn()
+	if f := os.Getenv("VERIF_HEAPPROF"); f != "" { // debugging aid
+		runtime.GC()
+		fmt.Fprintln(os.Stderr, "goroutines at end:", runtime.NumGoroutine())
+		if gh, err := os.Create(f + ".goroutines"); err == nil {
+			pprof.Lookup("goroutine").WriteTo(gh, 1)
+			gh.Close()
+		}
+		if fh, err := os.Create(f); err == nil {
+			pprof.WriteHeapProfile(fh)
+			fh.Close()
+		}
+	}
 	run.Finish()
 }
